@@ -134,6 +134,13 @@ func (o *Out) Fail(id, sig, detail string, caseLine string) {
 	b, _ := json.Marshal(rec)
 	o.oracle.Write(b)
 	o.oracle.WriteByte('\n')
+	// enough is enough: a tree on which the oracle fails this often needs no further cases (each of them may wait for
+	// its timeouts); what has been seen is reported
+	if o.OracleFail >= 60 {
+		o.Extra["stopped_early"] = "60 oracle failures"
+		o.Close()
+		os.Exit(0)
+	}
 }
 
 func (o *Out) Count(key string) { o.Dist[key]++ }
